@@ -33,6 +33,7 @@ type Obligation struct {
 	Spec     string
 	Script   string
 	Bytes    int
+	Ctx      *ReplayCtx
 }
 
 type arrival struct {
@@ -768,8 +769,8 @@ func (fr *Frame) oblName(kind string) string {
 	}
 	k := top.fname + "#" + kind
 	top.cnt["obl:"+k]++
-	if n := top.cnt["obl:"+k]; n > 1 || strings.HasSuffix(kind, ":") {
-		k = fmt.Sprintf("%s%d", k, n)
+	if n := top.cnt["obl:"+k]; n > 1 {
+		k = fmt.Sprintf("%s~%d", k, n)
 	}
 	if top.part != "" {
 		k += "@" + top.part
